@@ -33,7 +33,10 @@ fn transparent(l: L, lang: &text2num::Language, text: &str) -> bool {
     if !text.chars().any(|c| c.is_alphabetic()) {
         return text.trim() != ".";
     }
-    low == l.conj() || lang.is_linking(&low)
+    // the linking words are the interpreter's documented list (extracted from the pinned tree), not whatever
+    // `is_linking` answers: a lookup that loses some of them must not take the oracle with it
+    let _ = lang;
+    low == l.conj() || vocab::linking_words(l).iter().any(|w| *w == low)
 }
 
 /// The policy: which of the threshold-0 occurrences `r` are rewritten at threshold `t`.
@@ -188,6 +191,16 @@ pub fn run(tier: Tier) -> i32 {
         }));
         // long streams: every pattern of <= 2 deep-alphabet symbols repeated r times
         total.merge(explore::all_repetitions(&a2, 2, 2..=rmax, |syms, acc| one_stream(&ctx, acc, l, &lang, syms)));
+        // every linking word of the interpreter between small numbers (all streams <= 3 over one, unit, the word, an ordinary word)
+        for w in vocab::linking_words(l) {
+            let c = vocab::cls(l);
+            let a4: Vec<String> = vec![c.one.clone(), c.unit.clone(), w.to_string(), c.ordinary.clone()];
+            total.merge(explore::all_sequences(&a4, 3, |syms, acc| {
+                if syms.iter().any(|s| s == w) {
+                    one_stream(&ctx, acc, l, &lang, syms)
+                }
+            }));
+        }
         // boundary thresholds on short streams of small numbers
         let c = vocab::cls(l);
         let a3: Vec<String> = vec![c.one, c.unit, c.unit2, c.zero, c.small_ord, c.large_ord, c.tens, c.ordinary, ",".to_string()];
@@ -203,7 +216,7 @@ pub fn run(tier: Tier) -> i32 {
         "alphabets": alphas,
     });
     ctx.finish(total, cov, vec![
-        "the language's linking-word set is taken from the interpreter (is_linking on the lowercased token); the conjunction counts as linking".into(),
+        "the language's linking-word set is the interpreter's list as extracted from the pinned tree (harness/src/vocab_lits.rs LINK_*), each word of it is explored between small numbers; the conjunction counts as linking".into(),
         "digit tokens are not in this alphabet; '!word' is a token flagged not-a-number-part (an ordinary word for the policy); words mixing letters with an apostrophe, a hyphen, a digit or glued punctuation are ordinary words too; the decimal-separator word is (a separator that starts no fraction is an ordinary word)".into(),
     ])
 }
